@@ -85,6 +85,12 @@ def config(rng):
     else:
         w = {"w": rng.choice(["synth", "synth", "frag"]), "seed": rng.randrange(10 ** 6), "ff": ff,
              "p": {"maxlen": 6, "waters": [0, 2, 4], "na_prob": 0.2, "variant_prob": 0.15, "damage_prob": 0.15}}
+    # input encoding: plain PDB, multi-model PDB, mmCIF (single / multi-model with assorted model numbers)
+    if "named" not in w:
+        enc = rng.choice(["pdb", "pdb", "pdb", "pdb-models", "cif", "cif-models", "cif-models"])
+        if enc != "pdb":
+            w["enc"] = enc
+            w["model_numbers"] = rng.choice([[1, 2, 3], [9, 10, 11], [2, 10, 11], [3, 2, 1], [1, 2, 3, 4, 5, 6, 7, 8, 9, 10, 11]])
     cid = hashlib.sha1(json.dumps([w, opts, userff], sort_keys=True).encode()).hexdigest()[:10]
     return {"id": cid, "fail": None, "opts": opts, "w": w, "flavour": flavour, "userff": userff}
 
@@ -101,7 +107,24 @@ def text_of(cfg):
         return pdbfmt.to_text(items)
     if cfg["w"].get("named"):
         return (common.REPO / "tests" / "data" / f"{cfg['w']['named']}.pdb").read_text()
-    return workload.materialise(cfg["w"])["text"]
+    m = workload.materialise({k: v for k, v in cfg["w"].items() if k not in ("enc", "model_numbers")})
+    enc = cfg["w"].get("enc", "pdb")
+    if enc == "pdb":
+        return m["text"]
+    items = m["items"]
+    if enc.endswith("models"):
+        body = [it for it in items if it != "END"]
+        allm = []
+        for k, num in enumerate(cfg["w"]["model_numbers"]):
+            allm.append("MODEL     %4d" % num)
+            allm += [dict(it, x=it["x"] + 1.37 * k, y=it["y"] - 0.61 * k) if isinstance(it, dict) else it for it in body]
+            allm.append("ENDMDL")
+        items = allm + ["END"]
+        pdbfmt.renumber(items)
+    if enc.startswith("cif"):
+        from ..gen import cifwriter
+        return cifwriter.write(items, label_auth="wwpdb")
+    return pdbfmt.to_text(items)
 
 
 def run_cfg(cfg):
@@ -116,7 +139,8 @@ def run_cfg(cfg):
         else:
             dat, names, _ = ffgen.make(random.Random(cfg["userff"]["ffseed"]), cfg["userff"]["base"])
             extra = {"u.dat": dat, "u.names": names}
-    r = pipeline.run(text, opts, workname="c11", extra_files=extra)
+    r = pipeline.run(text, opts, workname="c11", extra_files=extra,
+                     suffix=".cif" if (cfg["w"] or {}).get("enc", "").startswith("cif") else ".pdb")
     if r.ok and r.pqr_text is not None:
         return "ok:" + hashlib.sha1(r.pqr_text.encode()).hexdigest(), r.pqr_text
     return "fail:" + type(r.exc).__name__, None
